@@ -3,12 +3,11 @@
  "name": "qcow2_write_raw_image",
  "props": ["C19"],
  "level": "U/iter",
- "tier": "wip",
+ "tier": "quick",
  "tier_after_hooks": "quick",
  "harness": "h_qcow2_to_raw",
  "loop_contracts": true,
  "replace": ["ext2fs_get_memzero", "qcow2_copy_data"],
- "defines": ["SPEC_PINNED_TABLE_LIMIT"],
  "unwind": 6,
  "unwindset": {"__CPROVER_contracts_write_set_check_assigns_clause_inclusion.0": 10},
  "unwind_reason": "the L1 and L2 walks of qcow2_write_raw_image are cut by in-place loop contracts (hooks-pending/tools.diff); the bound serves the DFCC library loops (unwinding assertions on)",
@@ -18,7 +17,7 @@
              "ext2fs_llseek, read(2), write(2) are stubs: seeks succeed or fail (harness-chosen, independently per call), read delivers the full count or fails; the L1 table read delivers ARBITRARY entries with the harness's arbitrary entry at K1, an L2 table read from the offset recorded at L1[K1] delivers arbitrary entries with the harness's arbitrary entry at K2 (tables read from other offsets are arbitrary)",
              "ext2fs_get_memzero (inline malloc+memset of ext2fs.h) is replaced by a contract returning a fresh object of the requested size with ARBITRARY contents (every table is overwritten by read before use) or failing; qcow2_copy_data is replaced by a contract with an arbitrary result (its own loop - retries, short writes - is not part of this unit)",
              "header: cluster_bits 9..30 (the function accepts 31 as well, but then evaluates 1 << 31 in int - undefined signed shift, excluded here and reported as an observation), l1_size <= 2^16 (harness object size) and l1_size * l2_size * cluster_size <= 2^64 (the L1 table describes at most 2^64 bytes of guest space: honest images have l1_size == ceil(size / bytes per L1 entry); the function itself only checks l1_size against a far more generous bound), no encryption",
-             "the reader treats an L1 entry that is 0 or points beyond the guest size (hdr.size) as 'no table' and an L1 entry with the COMPRESSED bit as an error; this GREEN unit (define SPEC_PINNED_TABLE_LIMIT; drop the define once the fix is merged - the unit then fails on the unfixed reader and passes on the fixed one) makes the statement only for L1 entries 0 < offset <= hdr.size; the unrestricted statement is unit qcow2_to_raw_table_beyond_size (wip, genuine defect findings/C19_qcow2_l1_beyond_size); the final size-fixing write is unit qcow2_to_raw_last_byte (wip, findings/C19_qcow2_raw_last_byte)",
+             "the reader treats an L1 entry that is 0 or points beyond the guest size (hdr.size) as 'no table' and an L1 entry with the COMPRESSED bit as an error; since the fix: commits for findings/C19_qcow2_l1_beyond_size and C19_qcow2_raw_last_byte the statement is made for every non-zero L1 entry",
              "little-endian host; U/iter: steps proved from arbitrary states satisfying the proved invariants"],
  "native": false
 }
@@ -28,7 +27,7 @@
  "name": "qcow2_to_raw_table_beyond_size",
  "props": ["C19"],
  "level": "U/iter",
- "tier": "wip",
+ "tier": "quick",
  "harness": "h_qcow2_to_raw",
  "loop_contracts": true,
  "replace": ["ext2fs_get_memzero", "qcow2_copy_data"],
@@ -45,11 +44,11 @@
  "name": "qcow2_to_raw_last_byte",
  "props": ["C19"],
  "level": "U/iter",
- "tier": "wip",
+ "tier": "quick",
  "harness": "h_qcow2_to_raw",
  "loop_contracts": true,
  "replace": ["ext2fs_get_memzero", "qcow2_copy_data"],
- "defines": ["SPEC_KEEP_COPIED_BYTES", "SPEC_PINNED_TABLE_LIMIT"],
+ "defines": ["SPEC_KEEP_COPIED_BYTES"],
  "unwind": 6,
  "unwindset": {"__CPROVER_contracts_write_set_check_assigns_clause_inclusion.0": 10},
  "unwind_reason": "as qcow2_write_raw_image",
